@@ -450,6 +450,10 @@ func main() {
 	sequential(rep)
 	flvSequential(rep)
 	flvIndependence(rep)
+	runner.FineP = 2 // statement-level points in the files of fine.txt
+	if rep.Thorough() {
+		runner.FineP = 2
+	}
 	runner.Run(rep, scenarios(rep.Thorough()))
 	rep.Finish()
 }
